@@ -50,6 +50,10 @@ def to_model(case, obs):
             evs.append("DropHandle %d" % c[1])
         elif n == "drop_barrier":
             evs.append("DropBarrier %d" % c[1])
+        elif n == "abandon":
+            evs.append("Abandon %d" % c[1])
+        elif n == "kill":
+            evs.append("Kill %d" % c[1])
     term = "crun %d [%s]" % (case["cfg"]["nsrc"], "; ".join(evs))
     return term, list(range(len(evs))), []
 
@@ -85,32 +89,42 @@ def compare(case, obs, model, probes):
             else:
                 return "%s: wait returned %s" % (where, r)
         # source states
-        for k, ((s, ret, fin), m) in enumerate(zip(st, ms)):
-            impl = 2 if fin else (0 if s == ret else 1)
-            if impl != m or s != started[k] or (fin and s != ret + 1) or s - ret not in (0, 1):
-                names = ["running", "suspended", "panicked"]
-                return "%s: source %d is %s (calls started %d, returned %d) in the implementation, %s in the model (calls %d)" % (
-                    where, k, names[impl], s, ret, names[m], started[k])
+        for k, ((s, ret, fin, ab, killed), m) in enumerate(zip(st, ms)):
+            impl = 3 if killed else (2 if fin else (0 if s == ret + ab else 1))
+            if impl != m or s != started[k] or (fin and not killed and s != ret + ab + 1) or s - ret - ab not in (0, 1):
+                names = ["running", "suspended", "panicked", "gone"]
+                return "%s: source %d is %s (calls started %d, returned %d, given up %d) in the implementation, %s in the model (calls %d)" % (
+                    where, k, names[impl], s, ret, ab, names[m], started[k])
     return None
 
 
 # ---- independent oracle: the property on the implementation trace ----------
 
 def oracle(case, obs):
-    """Python statement of C20 evaluated on what the implementation did."""
+    """Python statement of C20 evaluated on what the implementation did.  Every trigger call
+    that was made and matched a live barrier must be reported exactly once, in trigger order,
+    whether or not the triggering code still exists when the test waits."""
     out = []
     io = obs["obs"]
     nsrc = case["cfg"]["nsrc"]
-    live = []            # [bid, ty, react, cond, queue(list of (ty,n,src|None))] creation order
+    live = []            # [bid, ty, react, cond, queue(list of (ty, n, src|None, call no))] creation order
     nb = 0
-    handles = {}         # hid -> src or None
-    state = ["run"] * nsrc      # run | susp | dead
-    token = {}           # src -> ("q", bid) | ("h", hid)
+    handles = {}         # hid -> (src, call no) or None
+    state = ["run"] * nsrc      # run | susp | dead | gone
+    parked = {}          # src -> call no of the trigger call it is parked in
     calls = [0] * nsrc
     rets = [0] * nsrc
+    gave_up = [0] * nsrc
+    callno = 0
 
     def fail(t):
         out.append((t, None))
+
+    def release(src, no):
+        if src is not None and state[src] == "susp" and parked.get(src) == no:
+            state[src] = "run"
+            rets[src] += 1
+            del parked[src]
 
     for i, (c, (r, st)) in enumerate(zip(case["script"], io)):
         n = c[0]
@@ -127,59 +141,64 @@ def oracle(case, obs):
                 if state[src] != "run":
                     fail("%s: a %s source made a trigger call" % (where, state[src]))
                 calls[src] += 1
+                callno += 1
                 m = next((b for b in live if b[1] == c[2] and py_pred(b[3], c[3])), None)
                 if m is None:
                     rets[src] += 1          # must return at once, reported nowhere
                 elif m[2] == "noop":
-                    m[4].append((c[2], c[3], None))
+                    m[4].append((c[2], c[3], None, callno))
                     rets[src] += 1
                 elif m[2] == "suspend" and n == "trigger":
-                    m[4].append((c[2], c[3], src))
+                    m[4].append((c[2], c[3], src, callno))
                     state[src] = "susp"
-                    token[src] = ("q", m[0])
+                    parked[src] = callno
                 else:
                     state[src] = "dead"     # Panic, or trigger_noop on a Suspend barrier
             else:
                 if state[src] == "run":
                     fail("%s: source %d should be able to trigger but is %s" % (where, src, r))
+        elif n == "abandon":
+            src = c[1]
+            if state[src] == "susp":
+                state[src] = "run"
+                gave_up[src] += 1
+                parked.pop(src, None)
+        elif n == "kill":
+            src = c[1]
+            if state[src] != "gone":
+                state[src] = "gone"
+                parked.pop(src, None)
         elif n == "wait":
             b = next((x for x in live if x[0] == c[1]), None)
             if b is None or not b[4]:
                 if r is not None:
                     fail("%s: wait returned %s but nothing is queued for this barrier" % (where, r))
             else:
-                ty, val, src = b[4].pop(0)
+                ty, val, src, no = b[4].pop(0)
                 if not isinstance(r, list):
                     fail("%s: wait is pending although trigger (%d,%d) was reported to this barrier and not yet delivered" % (where, ty, val))
-                    b[4].insert(0, (ty, val, src))
+                    b[4].insert(0, (ty, val, src, no))
                 else:
                     if r[1:] != [ty, val]:
-                        fail("%s: wait returned value %s, expected (%d,%d) (earliest matching live barrier, trigger order)" % (where, r[1:], ty, val))
-                    handles[r[0]] = src
-                    if src is not None:
-                        token[src] = ("h", r[0])
+                        fail("%s: wait returned value %s, expected (%d,%d) (earliest matching live barrier, trigger order, reported whether or not the triggering code still exists)" % (where, r[1:], ty, val))
+                    handles[r[0]] = (src, no)
         elif n == "drop_handle":
-            src = handles.pop(c[1], None)
-            if src is not None and token.get(src) == ("h", c[1]):
-                state[src] = "run"
-                rets[src] += 1
-                del token[src]
+            h = handles.pop(c[1], None)
+            if h is not None:
+                release(h[0], h[1])
         elif n == "drop_barrier":
             b = next((x for x in live if x[0] == c[1]), None)
             if b is not None:
                 live.remove(b)
-                for (_, _, src) in b[4]:
-                    if src is not None:
-                        state[src] = "run"
-                        rets[src] += 1
-                        token.pop(src, None)
-        for k, (s, ret, fin) in enumerate(st):
+                for (_, _, src, no) in b[4]:
+                    release(src, no)
+        for k, (s, ret, fin, ab, killed) in enumerate(st):
             want = state[k]
-            got = "dead" if fin else ("run" if s == ret else "susp")
-            if got != want or s != calls[k] or ret != rets[k]:
-                words = {"run": "free to proceed", "susp": "blocked in its trigger call", "dead": "panicked"}
-                fail("%s: source %d is %s (trigger calls started %d, returned %d), expected %s (started %d, returned %d)" % (
-                    where, k, words[got], s, ret, words[want], calls[k], rets[k]))
+            got = "gone" if killed else ("dead" if fin else ("run" if s == ret + ab else "susp"))
+            if got != want or s != calls[k] or ((ret, ab) != (rets[k], gave_up[k]) and want != "gone"):
+                words = {"run": "free to proceed", "susp": "blocked in its trigger call", "dead": "panicked", "gone": "dropped"}
+                fail("%s: source %d is %s (trigger calls started %d, returned %d, given up %d), expected %s (started %d, returned %d, given up %d)" % (
+                    where, k, words[got], s, ret, ab, words[want], calls[k], rets[k], gave_up[k]))
                 break
     return out
 
@@ -191,10 +210,12 @@ def features(case, obs):
             f.add("delivered")
         if c[0] == "wait" and r is None:
             f.add("pending")
-        if any(s != ret and not fin for (s, ret, fin) in st):
+        if any(s != ret + ab and not fin and not kl for (s, ret, fin, ab, kl) in st):
             f.add("suspended")
-        if any(fin for (_, _, fin) in st):
+        if any(fin and not kl for (_, _, fin, _, kl) in st):
             f.add("panicked")
+        if c[0] in ("kill", "abandon"):
+            f.add("vanished")
         if c[0] == "drop_barrier":
             f.add("drop_barrier")
     return f
@@ -242,8 +263,10 @@ def gen_script(rng, mode="local", size=None):
             b = rng.choice(live) if live and rng.random() < 0.9 else rng.randrange(nb)
             s.append(["wait", b])
             nh_guess += 1
-        elif x < 0.92:
+        elif x < 0.90:
             s.append(["drop_handle", rng.randrange(max(1, nh_guess))])
+        elif x < 0.93:
+            s.append([rng.choice(["abandon", "abandon", "kill"]) if mode == "local" else "kill", rng.randrange(nsrc)])
         elif live:
             b = rng.choice(live)
             live.remove(b)
@@ -258,6 +281,52 @@ def gen_script(rng, mode="local", size=None):
         for b in range(nb):
             s.append(["drop_barrier", b])
     return {"cfg": {"mode": mode, "nsrc": nsrc}, "script": s, "flavour": mode}
+
+
+def gen_vanish(rng, mode="local"):
+    """The triggering code disappears while parked at a Suspend barrier - timeout around the call
+    (abandon), task abort / Sim::crash of the host (kill) - BEFORE the test waits; then further
+    triggers from other sources, then the waits: every call that happened is reported exactly once,
+    in trigger order."""
+    nsrc = rng.choice([2, 3, 4])
+    s = []
+    ty = rng.choice([0, 1])
+    if rng.random() < 0.3:
+        s.append(["build", ty, "noop", ["eq", 0]])
+    s.append(["build", ty, "suspend", rng.choice([["any"], ["gt", 0]])])
+    main = len(s) - 1
+    if rng.random() < 0.5:
+        s.append(["build", ty, rng.choice(["noop", "suspend"]), ["any"]])
+    nb = len(s)
+    alive = list(range(nsrc))
+    nh = 0
+    for _ in range(rng.randrange(3, 10)):
+        x = rng.random()
+        if x < 0.5 and alive:
+            s.append(["trigger", rng.choice(alive), ty, rng.randrange(0, 6)])
+        elif x < 0.65:
+            if mode == "local":
+                s.append(["abandon", rng.randrange(nsrc)])
+        elif x < 0.85 and alive:
+            k = rng.choice(alive)
+            alive.remove(k)
+            s.append(["kill", k])
+        elif x < 0.92:
+            s.append(["wait", rng.randrange(nb)])
+            nh += 1
+        else:
+            s.append(["drop_handle", rng.randrange(max(1, nh))])
+    for b in range(nb):
+        for _ in range(rng.choice([2, 4, 8])):
+            s.append(["wait", b])
+            nh += 1
+    for h in range(min(nh, 6)):
+        s.append(["drop_handle", h])
+    if alive:
+        s.append(["trigger", rng.choice(alive), ty, 3])
+    if rng.random() < 0.5:
+        s.append(["drop_barrier", main])
+    return {"cfg": {"mode": mode, "nsrc": nsrc}, "script": s, "flavour": "vanish-" + mode}
 
 
 def gen_burst(rng, mode="local"):
